@@ -1080,7 +1080,24 @@ func ruleDecisionTable(w *World, r *Run, a *updAnalysis, rule string) {
 				rec = true
 			}
 			if !rec {
-				r.Undecided(rule, a.key(v, "unrecognised predicate"), w.pos(f.At), "branch condition "+short(t.String())+" is not a predicate the decision table understands")
+				// a verdict must be a function of the request, the configuration and the checkpoint read from the store in
+				// this call: a branch on other state kept in the witness (a cache, a map, a package variable) is a violation
+				hidden := anySub(t, func(x *Term) bool {
+					switch {
+					case x.Kind == "call" && len(x.Args) >= 2 && x.Args[1] != nil && mentions(x.Args[1], a.pRecv) && strings.Contains(x.Name, "sync."):
+						return true
+					case x.Kind == "lookup" && x.Args[0] != a.logsMap && mentions(x.Args[0], a.pRecv):
+						return true
+					case x.Kind == "global" && !isSentinel(x):
+						return true
+					}
+					return false
+				})
+				if hidden {
+					r.Fail(rule, a.key(v, "verdict depends only on request, configuration and the checkpoint read in this call"), w.pos(f.At), "the verdict branches on "+short(t.String())+": state kept in the witness outside the store (it can disagree with the stored checkpoint after a failed write or a restart, so the first matching protocol rule is decided on the wrong sizes)")
+				} else {
+					r.Undecided(rule, a.key(v, "unrecognised predicate"), w.pos(f.At), "branch condition "+short(t.String())+" is not a predicate the decision table understands")
+				}
 				return
 			}
 		}
